@@ -67,6 +67,63 @@ def wire_events(arg):
     return evs
 
 
+def reuse_events(arg):
+    """Slot re-use: a raw-mode session logs in, its path goes dead for 64 s (the slot expires), a second client gets the
+    same slot with a fresh challenge and logs in in raw mode.  Every login message on the wire is judged against the
+    challenge of the session it belongs to, and a correct raw login must be answered."""
+    import runs
+    seed, pw = arg
+    evs = []
+    sess = None
+    try:
+        relay = scen.Relay(seed)
+        sess = scen.Session(runs.bdir(), seed=seed, raw=True, qtype="NULL", password=pw, tag="ru%d" % seed, relay=relay)
+        sess.handshake(limit=120_000_000)
+        w = sess.w
+        t0 = w.now
+        relay.blackout = [("*", t0, t0 + 64_000_000)]
+        w.run_until(t=t0 + 66_000_000)
+        cargs = ["-f", "-P", pw, "-T", "NULL", W.SERVER_IP, sess.domain]
+        w.spawn("C1", "C1", cargs)
+        w.run_until(t=w.now + 30_000_000)
+        pwb = list(pw.encode("latin-1"))
+        chal = {}           # userid -> current challenge (latest VACK for that slot)
+        pending = None
+        for e in w.trace:
+            if e["ev"] != "Send":
+                continue
+            d = e["data"]
+            if d[:3] == proto.RAW_HDR and len(d) >= 20 and (d[3] >> 4) == 1 and (d[3] & 15) in chal:
+                cli = e["inst"] != "S"
+                evs.append({"e": "Wire", "pw": pwb, "seed": chal[d[3] & 15], "delta": 1 if cli else 2, "out": list(d[4:20])})
+                if cli:
+                    if pending is not None and pending["t"] + 900_000 < e["t"]:
+                        evs.append({"e": "RawAnswered", "answered": False, "who": pending["inst"]})
+                    pending = {"t": e["t"], "inst": e["inst"]}
+                elif pending is not None:
+                    evs.append({"e": "RawAnswered", "answered": True, "who": pending["inst"]})
+                    pending = None
+                continue
+            m = D.parse(d)
+            if not m.qd:
+                continue
+            cls = proto.classify_query(m.qd[0][0], sess.domain)
+            if e["inst"] == "S" and cls["kind"] == "version" and not m.errors:
+                pl = proto.decode_answer(m)
+                if pl and pl[:4] == b"VACK" and len(pl) >= 9:
+                    chal[pl[8]] = list(pl[4:8])
+            elif e["inst"] != "S" and cls["kind"] == "login" and cls.get("uid") in chal:
+                evs.append({"e": "Wire", "pw": pwb, "seed": chal[cls["uid"]], "delta": 0, "out": list(bytes.fromhex(cls["hash"]))})
+        # only logins sent while the path was open can be expected to be answered
+        evs = [x for x in evs if x["e"] != "RawAnswered" or x["answered"] or x["who"] == "C1"]
+    except (W.KernelHang, W.KernelDied):
+        pass
+    finally:
+        if sess is not None:
+            sess.close()
+    return evs
+
+
 def main(tier):
     chk = vcheck.Check("C19", "exploration", tier)
     seed = vcheck.seed() + 19
@@ -86,6 +143,7 @@ def main(tier):
     wires = vcheck.parallel(wire_events, [(seed * 50 + i, pw, False) for i, pw in enumerate(pws)] +
                             [(seed * 50 + 1000 + 10 * i + k, pw, True) for i, pw in enumerate(pws)
                              for k in range(4 if tier == "quick" else 12)])
+    wires += vcheck.parallel(reuse_events, [(seed * 50 + 3000 + i, pw) for i, pw in enumerate(pws[:4 if tier == "quick" else 20])])
     wpath = os.path.join(vcheck.scratch(), "wire-%d.ndjson" % os.getpid())
     nw = 0
     with open(wpath, "w") as f:
@@ -95,12 +153,13 @@ def main(tier):
                 nw += 1
     if nw:
         files.append(wpath)
-    _, dn = funcs.survey(chk, files, lambda ev: ev.get("e") in ("Login", "Wire"))
+    _, dn = funcs.survey(chk, files, lambda ev: ev.get("e") in ("Login", "Wire", "RawAnswered"))
     out = funcs.judge_files(chk, "TraceLogin", "TraceLogin.cfg", files, "login",
                             sigfn=lambda ev: "%s:delta%s" % (ev.get("e"), ev.get("delta", "")))
     chk.cov["evaluations"] = out["events"]
     chk.cov["wire_events"] = nw
-    chk.cov["wire_kinds"] = sorted({e["delta"] for evs in wires for e in evs})
+    chk.cov["wire_kinds"] = sorted({e["delta"] for evs in wires for e in evs if "delta" in e})
+    chk.cov["raw_logins_answered"] = sum(1 for evs in wires for e in evs if e["e"] == "RawAnswered" and e["answered"])
     chk.cov["distinct_nontrivial"] = dn
     chk.cov["rule"] = ("one evaluation = one login_calculate() call, differential pair or wire message judged by TLC against "
                        "the TLA+ MD5; non-trivial = distinct (password, challenge, result) call and wire events")
